@@ -2,10 +2,10 @@ package core
 
 import (
 	"fmt"
-	"strings"
 	"go/token"
 	"go/types"
 	"os"
+	"strings"
 
 	"golang.org/x/tools/go/ssa"
 )
@@ -25,9 +25,11 @@ type TaintSpec struct {
 	convLeaf map[ssa.Value]bool
 	// signOnly: a leaf that is bounded above where it is produced (min(x, K)) but may be
 	// negative (the bound was taken after a conversion from a 64-bit unsigned value)
-	signOnly map[ssa.Value]bool
-	probe    *ssa.Function // its parameters count as sources while a summary is computed
-	summary  map[*ssa.Function]map[int]*helperSum
+	signOnly  map[ssa.Value]bool
+	probe     *ssa.Function // its parameters count as sources while a summary is computed
+	deciding  map[*ssa.Function]bool
+	noCallers bool
+	summary   map[*ssa.Function]map[int]*helperSum
 }
 
 // helperSum: how result idx of a helper depends on untrusted values.
@@ -468,13 +470,19 @@ func (t *TaintSpec) Bounded(p *Prog, fn *ssa.Function, s Sink) SinkVerdict {
 			}
 			continue
 		}
+		if t.helperDecides(p, leaf, s.Kind) {
+			// the helper that produced the value bounds it itself (and, where it converts a
+			// 64-bit unsigned value, does so in the unsigned domain) on every return
+			continue
+		}
 		a := atomUpperBounded(leaf, &sawUnsigned)
 		cut, per := CutEdges(fn, Lit{A: a, Want: true})
 		// which domain does the bound come from? A comparison on the unsigned value that
 		// does not lie on the flow (a lower-bound refusal, say) must not vouch for the sign
 		// when the bound that cuts the flow was made on the converted, signed value.
 		boundedUnsigned := false
-		if _, isInstr := leaf.(ssa.Instruction); isInstr {
+		_, leafIsParam := leaf.(*ssa.Parameter)
+		if _, isInstr := leaf.(ssa.Instruction); isInstr || leafIsParam {
 			su2 := false
 			cutU, perU := CutEdges(fn, Lit{A: atomUpperBoundedMode(leaf, &su2, true), Want: true})
 			if perU[0] > 0 {
@@ -519,10 +527,28 @@ func (t *TaintSpec) Bounded(p *Prog, fn *ssa.Function, s Sink) SinkVerdict {
 		} else {
 			reach := ReachInstrFrom(start, s.Instr, cut, nil)
 			bounded = reach == nil && per[0] > 0
+			if !bounded && leafIsParam && per[0] > 0 {
+				// the sink is reachable, but the parameter's value may arrive there only
+				// over bound edges (mtu := int(x); if x > Max { mtu = Max }; return mtu)
+				flows := FlowPath(s.Val, s.Instr, func(x ssa.Value) bool { return x == leaf }, cut, func(x ssa.Value) []ssa.Value {
+					switch y := x.(type) {
+					case *ssa.BinOp:
+						return []ssa.Value{y.X, y.Y}
+					case *ssa.Convert:
+						return []ssa.Value{y.X}
+					case *ssa.Call:
+						if b, ok := y.Call.Value.(*ssa.Builtin); ok && (b.Name() == "min" || b.Name() == "max") {
+							return y.Call.Args
+						}
+					}
+					return nil
+				})
+				bounded = !flows
+			}
 		}
 		if !bounded {
 			// parameter: the bound may be established by every caller
-			if par, isP := leaf.(*ssa.Parameter); isP && p != nil {
+			if par, isP := leaf.(*ssa.Parameter); isP && p != nil && !t.noCallers {
 				idx := -1
 				for i, q := range fn.Params {
 					if q == par {
@@ -604,3 +630,65 @@ func (t *TaintSpec) Bounded(p *Prog, fn *ssa.Function, s Sink) SinkVerdict {
 // Leaves exposes the untrusted origins of v (see taintedLeaves) for rules that build
 // their own sinks (an argument of a particular call).
 func (t *TaintSpec) Leaves(v ssa.Value) []ssa.Value { return t.taintedLeaves(v) }
+
+// helperDecides: leaf is the result of a helper of the repository whose untrusted part
+// comes from its parameters; the helper is decided on its own — every value it can return
+// there is bounded (and sign-safe) by the helper's own comparisons, whatever the argument.
+func (t *TaintSpec) helperDecides(p *Prog, leaf ssa.Value, kind string) bool {
+	var cl *ssa.Call
+	idx := 0
+	switch y := leaf.(type) {
+	case *ssa.Call:
+		cl = y
+	case *ssa.Extract:
+		if c2, ok := y.Tuple.(*ssa.Call); ok {
+			cl, idx = c2, y.Index
+		}
+	}
+	if cl == nil {
+		return false
+	}
+	h := cl.Call.StaticCallee()
+	if h == nil || h.Blocks == nil || h.Pkg == nil || !strings.HasPrefix(h.Pkg.Pkg.Path(), ModPath) {
+		return false
+	}
+	if t.deciding == nil {
+		t.deciding = map[*ssa.Function]bool{}
+	}
+	if t.deciding[h] {
+		return false
+	}
+	t.deciding[h] = true
+	defer delete(t.deciding, h)
+	sub := &TaintSpec{SourceField: t.SourceField, SourceCall: t.SourceCall, SourceParam: func(q *ssa.Parameter) bool { return q.Parent() == h }}
+	n := 0
+	ok := true
+	Instrs(h, func(in ssa.Instruction) {
+		r, isR := in.(*ssa.Return)
+		if !isR || idx >= len(r.Results) || in.Block() == h.Recover || !ok {
+			return
+		}
+		ls := sub.taintedLeaves(r.Results[idx])
+		if len(ls) == 0 {
+			return
+		}
+		for _, l := range ls {
+			if _, isP := l.(*ssa.Parameter); !isP {
+				ok = false // reads a source itself: decided where the value is used
+				return
+			}
+		}
+		n++
+		if v := sub.boundedNoCallers(p, h, Sink{Instr: r, Kind: kind, Val: r.Results[idx], Leaves: ls}); !v.OK {
+			ok = false
+		}
+	})
+	return ok && n > 0
+}
+
+// boundedNoCallers is Bounded without the fall-back to the call sites of fn.
+func (t *TaintSpec) boundedNoCallers(p *Prog, fn *ssa.Function, s Sink) SinkVerdict {
+	t.noCallers = true
+	defer func() { t.noCallers = false }()
+	return t.Bounded(p, fn, s)
+}
